@@ -175,6 +175,9 @@ def decode_md(md):
     import numpy as np
 
     if isinstance(md, dict):
+        if "__ordered__" in md:
+            # a dict with a given insertion order of its keys (JSON objects of a case are stored with sorted keys)
+            return {k: decode_md(v) for k, v in md["__ordered__"]}
         if "__array__" in md:
             n, seed, pos, delta = md["__array__"]
             a = np.random.default_rng(seed).uniform(0.1, 1.0, n)
